@@ -76,6 +76,13 @@ def make_ro(story_ids, layout='plain', items=None, para_layout='none', timing='n
     return ro_create(kids, message_id=message_id)
 
 
+def cross_refs(story_ids, item_ids):
+    """a payload that cross-references other stories / items of the running order by their IDs"""
+    return E('mosExternalMetadata', E('mosSchema', text='http://schema/xref'),
+             E('mosPayload', *[E('relatedStory', E('storyID', text=s)) for s in story_ids],
+               *[E('relatedItem', E('itemID', text=i)) for i in item_ids]))
+
+
 def decoy_block():
     """elements with the names the library searches for (storyID, itemID, story, item, p, roSlug, mosPayload ...),
     nested where no lookup should ever find them: inside the free-form payload of an item.  Their texts are the IDs
@@ -255,6 +262,56 @@ def merge_cases_placeholder(max_src=2):
         ro = to_text(make_ro(['A', 'B'], layout=layout))
         for cls, doc, meta in item_level_messages([None, ABSENT], ITEM_IDS[:1], max_src=max_src):
             yield {'ro': ro, 'msg': to_text(doc), 'meta': dict(meta, cls=cls, n=1, para='placeholder-' + layout)}
+
+
+def merge_cases_multi_move(level, rng=None):
+    """moves of three (and, sampled, four or five) sources that straddle the target, in a story with six items /
+    a running order with six stories: every ordered selection of 3 of the 5 other elements, target in the middle or blank"""
+    ids = ['X', 'A', 'B', 'T', 'C', 'D']
+    if level == 'item':
+        variants = [('none', make_ro(['S0', 'S1'], layout='between', items={'S0': ids[:2], 'S1': ids}, para_layout='none')),
+                    ('between', make_ro(['S0', 'S1'], layout='between', items={'S0': ids[:2], 'S1': ids}, para_layout='between'))]
+    else:
+        variants = [('plain', make_ro(ids, layout='plain')), ('between', make_ro(ids, layout='between'))]
+    others = [i for i in ids if i != 'T']
+    sels = list(itertools.permutations(others, 3))
+    if rng is not None:
+        sels += [tuple(rng.sample(others, n)) for n in (4, 4, 4, 5, 5) for _ in range(6)]
+    for name, ro in variants:
+        ro_t = to_text(ro)
+        for srcs in sels:
+            for tgt in ('T', None):
+                if level == 'item':
+                    docs = [('ItemMoveMultiple', item_move_multiple(6, 'S1', list(srcs) + [tgt])),
+                            ('EAItemMove', element_action(6, 'MOVE', ea_target('S1', tgt), [[ref('itemID', i) for i in srcs]]))]
+                else:
+                    docs = [('EAStoryMove', element_action(6, 'MOVE', [ref('storyID', tgt)], [[ref('storyID', i) for i in srcs]]))]
+                for cls, doc in docs:
+                    yield {'ro': ro_t, 'msg': to_text(doc), 'meta': {'cls': cls, 'n': 6, 'layout': 'multi-move-' + name, 'para': 'multi-move-' + name,
+                                                                    'sources': list(srcs), 'target': tgt}}
+
+
+def merge_cases_bad_timing_payload():
+    """messages that carry several stories of which one has a blank or non-numeric timing field: the merge itself
+    must not trip over what it has just inserted (the next evaluation of ro.stories will)"""
+    bads = {'blank-media': E('mosExternalMetadata', E('mosSchema', text='x'), E('mosPayload', E('MediaTime'))),
+            'blank-duration': E('mosExternalMetadata', E('mosSchema', text='x'), E('mosPayload', E('StoryDuration'))),
+            'text-duration': E('mosExternalMetadata', E('mosSchema', text='x'), E('mosPayload', E('StoryDuration', text='abc'))),
+            'text-only': payload(text_time='7')}
+    for timing in ('all', 'none'):
+        ro = to_text(make_ro(['A', 'B'], layout='plain', timing=timing))
+        for bname, bad in bads.items():
+            for where in (0, 1, 2):
+                import copy
+                new = [new_story('N%d' % j) for j in range(3)]
+                new[where].append(copy.deepcopy(bad))
+                for cls, doc in (('StoryInsert', story_insert(5, 'B', new)), ('StoryAppend', story_append(5, new)),
+                                 ('StoryReplace', story_replace(5, 'A', new)),
+                                 ('EAStoryInsert', element_action(5, 'INSERT', [ref('storyID', 'B')], [new])),
+                                 ('EAStoryInsertEnd', element_action(5, 'INSERT', [ref('storyID', None)], [new])),
+                                 ('EAStoryReplace', element_action(5, 'REPLACE', [ref('storyID', 'A')], [new]))):
+                    yield {'ro': ro, 'msg': to_text(doc), 'meta': {'cls': cls, 'n': 2, 'layout': 'bad-timing-payload', 'timing': timing,
+                                                                    'bad': bname, 'where': where}}
 
 
 def merge_cases_other():
